@@ -315,6 +315,8 @@ fn script_json(s: &[Step]) -> Json {
                 Step::Chunk(n) => json!({"chunk": n}),
                 Step::Interrupted => json!("interrupted"),
                 Step::Error(k) => json!({"error": format!("{:?}", k)}),
+                Step::ErrorShaped(k, sh) => json!({"error": format!("{:?}", k), "shape": sh}),
+                Step::ErrorOnce(k) => json!({"error_once": format!("{:?}", k)}),
                 Step::Pending { deferred } => json!({"pending": if *deferred { "deferred" } else { "immediate" }}),
                 Step::Eof => json!("eof"),
             })
@@ -338,6 +340,10 @@ fn script_from_json(j: &Json) -> Vec<Step> {
                 .map(|s| {
                     if let Some(n) = s.get("chunk").and_then(|n| n.as_u64()) {
                         Step::Chunk(n as usize)
+                    } else if let (Some(k), Some(sh)) = (s.get("error").and_then(|k| k.as_str()), s.get("shape").and_then(|x| x.as_u64())) {
+                        Step::ErrorShaped(kind_from_str(k), sh as u8)
+                    } else if let Some(k) = s.get("error_once").and_then(|k| k.as_str()) {
+                        Step::ErrorOnce(kind_from_str(k))
                     } else if let Some(k) = s.get("error").and_then(|k| k.as_str()) {
                         Step::Error(kind_from_str(k))
                     } else if let Some(p) = s.get("pending").and_then(|p| p.as_str()) {
@@ -1168,7 +1174,7 @@ pub fn run_c07(ctx: &Ctx) -> ! {
             let data = Arc::new(head.clone());
             for &kind in &kinds {
                 for variant in 0..2 {
-                    let mut script: Vec<Step> = if variant == 0 {
+                    let script: Vec<Step> = if variant == 0 {
                         if k > 0 {
                             vec![Step::Chunk(k)]
                         } else {
@@ -1177,7 +1183,14 @@ pub fn run_c07(ctx: &Ctx) -> ! {
                     } else {
                         (0..k).map(|_| Step::Chunk(1)).collect()
                     };
-                    script.push(Step::Error(kind));
+                  for shape in [1u8, 0, 2, 3] {
+                    let mut script = script.clone();
+                    // shape 1 = kind with a text payload; 0 = bare kind; 2 = payload wrapping ANOTHER io::Error of a
+                    // different kind; 3 = raw OS error. The kind to be reported is the outer one in every shape.
+                    script.push(if shape == 1 { Step::Error(kind) } else { Step::ErrorShaped(kind, shape) });
+                    if shape != 1 && (variant == 1 || kind == ErrorKind::WouldBlock) {
+                        continue;
+                    }
                     for entry in [Entry::Parse, Entry::Parts] {
                         st.states_extra += 1;
                         if k > 0 {
@@ -1198,6 +1211,7 @@ pub fn run_c07(ctx: &Ctx) -> ! {
                             }
                         }
                     }
+                  }
                 }
             }
         }
